@@ -1478,8 +1478,9 @@ def compare(ses: Session, rep):
                 return res
         bad = diff_state(rs, ms)
         if bad:
-            res.append(("broken", "model-vs-code:state:" + ",".join(bad),
-                        f"{where}: processor state differs on {bad}: implementation {rs} vs model {ms}"))
+            if not any(k == "violation" for k, *_ in res):
+                res.append(("broken", "model-vs-code:state:" + ",".join(bad),
+                            f"{where}: processor state differs on {bad}: implementation {rs} vs model {ms}"))
             return res
     if rep["log"] != len(ses.h.log):
         res.append(("broken", "model-vs-code:log", f"handler log {len(ses.h.log)} vs model {rep['log']}"))
